@@ -25,7 +25,7 @@ def main():
     cases = [{"mode": "c14", "h": h} for h in hs]
     loops = [h for h in hs if not any(s["a"] in ("query", "queryx", "queryfirst") for s in h)]
     # loop bodies proper: histories of create / relate / drop / collect / sweep without queries (SymbolGraph_gen_c14.cfg)
-    noq, _ = sgcommon.histories(ctx, "SymbolGraph_gen_c14.cfg",
+    noq, _ = sgcommon.histories(ctx, "SymbolGraph_gen_c20l.cfg",
                                 lambda h: any(s["a"] == "relate" for s in h) and not any(s["a"] in ("query", "queryx", "queryfirst", "clear") for s in h),
                                 3000 if thorough else 1200)
     loops = loops + noq
